@@ -8,13 +8,16 @@ LEAN_DRIVERS = ["Ctrl"]
 RULE = ("random job DAGs (0-8 tasks quick / 0-14 thorough; chains, diamonds, fan-in/out, multi-output tasks, isolated tasks, several "
         "components, GPU tasks, any subset of requested outputs incl. non-sinks) x clusters (1-3 hosts x 1-3 workers, GPU subsets "
         "keeping the job feasible) x adversarial seeded schedules of the abstract executors (any order + batching of events, and "
-        "FIFO-per-production order; task bodies publish their outputs one at a time while controller rounds go on); the REAL controller.impl.run is driven in-process through SimBridge; after every controller "
-        "phase (assign/act/plan/flush, notify) the abstraction of the real State (incl. published_outputs, the record from which completion is detected) "
-        "and the commands are compared with the Lean model. "
+        "FIFO-per-production order; task bodies publish their outputs one at a time while controller rounds go on; in half of the runs executor steps also happen "
+        "BETWEEN the bridge calls of one controller round; transfer notices that travel slowly; a third of the runs with a report address, i.e. through the real Reporter); "
+        "the REAL controller.impl.run is driven in-process through SimBridge, which interprets everything a command carries at the Bridge API (a body publishes only the "
+        "outputs named in TaskSequence.publish); at initialisation, after assign()+act(), after plan(), after flush_queues() and after notify() the abstraction of the real State "
+        "(incl. published_outputs) is compared with the Lean model, the commands incl. their publish sets and their order (up to set/dict iteration order), the scan order of "
+        "ds2host in build_assignment, the number of loop iterations against roundBound; the real Bridge's routing of the four calls and of shutdown is checked on a shell object. "
         "non-trivial = run with >=1 inter-host transfer or >=1 fetch or >=1 purge; distinct by hash of (job, cluster, schedule seed)")
 ASSUMPTIONS = [
     "executors are abstract (SimBridge mirrors Env of Model/Ctrl.lean plus the non-atomic layer Model/CtrlN.lean): a dispatched task starts once its inputs are in its host's store and publishes its outputs in index order, one environment step per output (in a quarter of the runs all at once), with controller rounds, deliveries, transfers and other bodies interleaved; transmit/fetch read the source store; purge is immediate",
-    "controller rounds are atomic with respect to executor steps (commands are asynchronous; the controller reads executor state only in recv_events)",
+    "executor steps happen inside recv_events and (half of the runs) between the bridge calls of a round; a step that falls between the commands of one model micro-step (the transmits and the task command of one assignment, the purges of one dataset) is replayed right after that micro-step",
     "the heuristic choice of (idle worker, computable task) pairs and of the transmit source is an oracle argument validated for admissibility by the model",
     "task values are uninterpreted terms (argument binding inside a task is C10, byte-faithful copies are C07)",
 ]
@@ -38,8 +41,15 @@ def last_overtook(trace):
     return False
 
 
-def shrink_case(case, pred):
-    """shrink a failing (spec, workers, seed, fifo): drop tasks from the end, drop ext outputs, drop workers"""
+def shrink_case(case, pred, budget_s=60.0):
+    """shrink a failing (spec, workers, seed, fifo): drop tasks from the end, drop ext outputs, drop workers; a failure
+    that only a timer detects (a spinning controller) makes every attempt slow, so the whole shrink has a time budget"""
+    import time
+    t0 = time.monotonic()
+    pred0 = pred
+
+    def pred(*a):
+        return time.monotonic() - t0 < budget_s and pred0(*a)
     spec, ws = case["spec"], case["workers"]
     changed = True
     while changed:
@@ -69,7 +79,7 @@ def shrink_case(case, pred):
 
 
 def correspond(ctx, prop):
-    n = ctx.budget(400, 6000)
+    n = ctx.budget(400, 4000)
     maxn = ctx.budget(8, 14)
     runs, batch_cases = [], []
     salt = {"C01": 11, "C02": 22, "C03": 33, "C04": 44}[prop]
@@ -85,14 +95,25 @@ def correspond(ctx, prop):
         rng = random.Random(seed)
         spec = S.gen_job(rng, maxn)
         ws = S.gen_cluster(rng, spec, ctx.budget(3, 4), ctx.budget(3, 4))
-        case = {"spec": spec, "workers": ws, "seed": seed, "fifo": i % 2 == 0}
+        case = {"spec": spec, "workers": ws, "seed": seed, "fifo": i % 2 == 0, "report": rng.random() < 0.3}
         if spec["ext"] and rng.random() < 0.08:
             # a requested output whose VALUE is None (oracle-only run: the model's values are never None)
             case["none_output"] = list(rng.choice(spec["ext"]))
         cases.append(case)
     for ci, c in enumerate(cases):
-        res = S.run_case(c["spec"], c["workers"], c["seed"], c["fifo"], none_output=c.get("none_output"))
-        if ci < len(corpus) and not any(p == prop for (p, _, _) in S.oracle(res, c["fifo"])):
+        res = S.run_case(c["spec"], c["workers"], c["seed"], c["fifo"], none_output=c.get("none_output"), report=c.get("report", False))
+        if ci < len(corpus) and c.get("expect_note") and not res["stats"]["notes"].get(c["expect_note"]):
+            # a witness of a situation (not a failure): look for a schedule seed under which this job/cluster shows it
+            for extra in range(1, 200):
+                r2 = S.run_case(c["spec"], c["workers"], c["seed"] + extra, c["fifo"])
+                if r2["stats"]["notes"].get(c["expect_note"]):
+                    c = dict(c, seed=c["seed"] + extra)
+                    cases[ci] = c
+                    res = r2
+                    break
+        if ci < len(corpus) and c.get("expect_note"):
+            ctx.count(("witness_replayed:" if res["stats"]["notes"].get(c["expect_note"]) else "witness_NOT_reproduced:") + c["expect_note"])
+        if ci < len(corpus) and c.get("expect_fail") and not any(p == prop for (p, _, _) in S.oracle(res, c["fifo"])):
             # a corpus witness depends on the scheduler's set-iteration order (PYTHONHASHSEED follows VERIF_SEED):
             # look for a schedule seed under which this job/cluster reproduces its finding
             for extra in range(1, 60):
@@ -109,7 +130,9 @@ def correspond(ctx, prop):
             runs, batch_cases = [], []   # traces are large: keeping thousands alive makes the GC pauses exceed run_case's alarm
         st = res["stats"]
         nontrivial = st["transmits"] + st["fetches"] + st["purges"] > 0
-        ctx.case({"spec": c["spec"], "workers": c["workers"], "seed": c["seed"], "fifo": c["fifo"], "none_output": c.get("none_output")}, nontrivial=nontrivial)
+        ctx.case({"spec": c["spec"], "workers": c["workers"], "seed": c["seed"], "fifo": c["fifo"], "none_output": c.get("none_output"), "report": c.get("report", False)}, nontrivial=nontrivial)
+        if c.get("report"):
+            ctx.count("runs_with_a_report_address(real Reporter)")
         if c.get("none_output") is not None:
             ctx.count("runs_with_a_None_valued_requested_output")
         ctx.count("runs_fifo" if c["fifo"] else "runs_anyorder")
@@ -121,6 +144,9 @@ def correspond(ctx, prop):
         ctx.count("controller_steps_while_a_body_is_between_two_outputs", st["rounds_while_running"])
         if st["max_running"] > 1:
             ctx.count("runs_with_several_bodies_running_at_once")
+        ctx.count("executor_steps_between_the_commands_of_a_round", st.get("mid_steps", 0))
+        for k_, v_ in st.get("notes", {}).items():
+            ctx.count(k_, v_)
         ctx.count("outcome:" + res["outcome"])
         ctx.count("hosts=%d" % st["hosts"])
         if st["tasks"] == 0:
@@ -138,13 +164,16 @@ def correspond(ctx, prop):
                 sig["cause"] = "none-valued-output"
 
             def pred(spec2, ws2, kind=kind, c=c):
-                r2 = S.run_case(spec2, ws2, c["seed"], c["fifo"], none_output=c.get("none_output"))
+                r2 = S.run_case(spec2, ws2, c["seed"], c["fifo"], none_output=c.get("none_output"), report=c.get("report", False))
                 return any(p2 == prop and k2 == kind for (p2, k2, _) in S.oracle(r2, c["fifo"]))
             small = shrink_case(c, pred) if len(ctx.violations) < 3 else c
             if c.get("none_output") is not None:
                 small["none_output"] = c["none_output"]
+            if c.get("report"):
+                small["report"] = True
             ctx.violation(sig, small, f"{kind}: {detail} (job with {len(small['spec']['tasks'])} tasks on {len(small['workers'])} workers, schedule seed {c['seed']}, {'fifo' if c['fifo'] else 'anyOrder'})")
     _replay_batch(ctx, prop, runs, batch_cases)
+    bridge_shell(ctx, prop)
 
 
 def _replay_batch(ctx, prop, runs, cases):
@@ -165,7 +194,10 @@ def _replay_batch(ctx, prop, runs, cases):
         if c.get("none_output") is not None:
             continue   # the model's values are never None: this case only replays a known finding on the implementation
         ctx.traces += 1
-        d = S.compare(r["trace"], mo, fifo=c["fifo"])
+        sn = S.soft_notes(mo)
+        if sn:
+            ctx.count("transmit_source_other_than_first_available_of_the_scan", sn)
+        d = S.compare(r["trace"], mo)
         if d:
             ctx.disagree("controller-phase", {"spec": c["spec"], "workers": c["workers"], "seed": c["seed"], "fifo": c["fifo"]}, d.get("model"), {k2: v for k2, v in d.items() if k2 != "model"})
             continue
@@ -178,9 +210,16 @@ def _replay_batch(ctx, prop, runs, cases):
         mf = S.model_final(mo)
         if mf is not None:
             mv = sorted(set(mf["env"]["viol"]))
-            iv = sorted({kind for kind, _ in r["viol"]})
+            iv = sorted({kind for kind, _ in r["viol"]} - {"C04 purge-before-transfer-notice"})   # not a monitor of the model
             if mv != iv:
                 ctx.disagree("monitors", {"spec": c["spec"], "workers": c["workers"], "seed": c["seed"], "fifo": c["fifo"]}, mv, iv)
+            if r["outcome"] == "finished" and "present" in mf["env"]:
+                # what every host's store holds when run() returns: the model's environment vs SimBridge's
+                mp = sorted(mf["env"]["present"])
+                ip = sorted(r["env"]["present"])
+                if mp != ip:
+                    ctx.disagree("stores-at-exit", {"spec": c["spec"], "workers": c["workers"], "seed": c["seed"], "fifo": c["fifo"]},
+                                 [x for x in mp if x not in ip][:5], [x for x in ip if x not in mp][:5])
             if r["outcome"] == "finished":
                 mo_out = {(t, kk): v for t, kk, v in mf["ctl"]["outputs"]}
                 for d_, v in r["outputs"].items():
@@ -188,9 +227,34 @@ def _replay_batch(ctx, prop, runs, cases):
                         ctx.disagree("outputs", c["spec"], mo_out.get(d_), v)
 
 
+def bridge_shell(ctx, prop):
+    """the real Bridge's last step from the four calls to the wire (routing, addresses, indices): ctrl_bridge.py"""
+    from ekw import ctrl_bridge
+    import random
+    mine = {"C02": ("task",), "C03": ("shutdown",), "C04": ("transmit", "fetch", "purge", "idx")}[prop] if prop in ("C02", "C03", "C04") else ()
+    if not mine:
+        return
+    for _ in range(ctx.budget(40, 400)):
+        seed = ctx.rng.randrange(1 << 30)
+        fails, counts = ctrl_bridge.check_bridge(random.Random(seed))
+        for k, v in counts.items():
+            ctx.count(k, v)
+        for kind, detail in fails:
+            what = str(detail)
+            if any(m in what or m in kind for m in mine) or kind == "bridge-call-raised":
+                ctx.violation({"kind": kind}, {"bridge_shell_seed": seed}, f"real Bridge: {kind}: {detail}")
+                break
+
+
 def replay(payload, prop):
     c = payload["case"]
-    res = S.run_case(c["spec"], c["workers"], c["seed"], c["fifo"], none_output=c.get("none_output"))
+    if "bridge_shell_seed" in c:
+        from ekw import ctrl_bridge
+        import random
+        fails, _ = ctrl_bridge.check_bridge(random.Random(c["bridge_shell_seed"]))
+        print("real Bridge shell:", fails)
+        return 1 if fails else 0
+    res = S.run_case(c["spec"], c["workers"], c["seed"], c["fifo"], none_output=c.get("none_output"), report=c.get("report", False))
     fails = [x for x in S.oracle(res, c["fifo"]) if x[0] == prop]
     print("job:", json.dumps(c["spec"]))
     print("workers:", c["workers"], "seed:", c["seed"], "fifo:", c["fifo"])
